@@ -4,10 +4,10 @@
 D=$1; M=$2; shift 2
 WT=$D/wt
 git -C $WT checkout -q -- . 
-echo "== demo pristine"; (cd $D/$M && sh -c "$(grep -v '^#' demo.txt | head -1)") >/tmp/seed_try_demo.log 2>&1; echo "rc=$?"
+echo "== demo pristine"; (cd $D/$M && sh ./demo.txt) >/tmp/seed_try_demo.log 2>&1; echo "rc=$?"
 git -C $WT apply $D/$M/patch.diff || { echo "PATCH DOES NOT APPLY"; exit 2; }
-echo "== demo patched"; (cd $D/$M && sh -c "$(grep -v '^#' demo.txt | head -1)") >/tmp/seed_try_demo2.log 2>&1; echo "rc=$?"; tail -3 /tmp/seed_try_demo2.log
+echo "== demo patched"; (cd $D/$M && sh ./demo.txt) >/tmp/seed_try_demo2.log 2>&1; echo "rc=$?"; tail -3 /tmp/seed_try_demo2.log
 for id in "$@"; do
-  echo "== check $id"; (cd /verif && VERIF_REPO=$WT python3 check.py $id 2>&1 | grep -E "^VIOLATION|^KNOWN|^\[" | cut -c1-220 | head -8)
+  echo "== check $id"; (cd /verif && VERIF_REPO=$WT python3 check.py $id 2>&1 | grep -E "^VIOLATION|^\[" | cut -c1-220 | head -8)
 done
 git -C $WT checkout -q -- .
